@@ -164,20 +164,45 @@ type advToken struct {
 	Root  ed25519.PublicKey
 }
 
+// envFault: one fault of the ENVELOPE that the attacker, who owns every key of the chain, can sign over:
+// the key announced by block Pos has length KeyLen (>= 0), or its algorithm number is Alg (>= 0).
+// The signatures are made over exactly those bytes, so the chain is valid as far as it can be.
+type envFault struct {
+	Pos    int
+	KeyLen int
+	Alg    int32
+}
+
 func signEnvelope(rng *RNG, blocks [][]byte, sealed bool, secretLen int) ([]byte, ed25519.PublicKey) {
+	return signEnvelopeFault(rng, blocks, sealed, secretLen, envFault{-1, -1, -1})
+}
+
+func signEnvelopeFault(rng *RNG, blocks [][]byte, sealed bool, secretLen int, ef envFault) ([]byte, ed25519.PublicKey) {
 	rootSeed := rng.Bytes(32)
 	priv := ed25519.NewKeyFromSeed(rootSeed)
 	c := &pb.Biscuit{}
 	cur := priv
-	alg := pb.PublicKey_Ed25519
 	var lastSecret []byte
 	var last *pb.SignedBlock
 	for i, blk := range blocks {
+		alg := pb.PublicKey_Ed25519
+		algBytes := []byte{0, 0, 0, 0}
 		nseed := rng.Bytes(32)
 		npriv := ed25519.NewKeyFromSeed(nseed)
 		npub := npriv.Public().(ed25519.PublicKey)
-		msg := append(append(append([]byte{}, blk...), 0, 0, 0, 0), npub...)
-		sb := &pb.SignedBlock{Block: blk, NextKey: &pb.PublicKey{Algorithm: &alg, Key: npub}, Signature: ed25519.Sign(cur, msg)}
+		announced := []byte(npub)
+		if ef.Pos == i && ef.KeyLen >= 0 {
+			announced = make([]byte, ef.KeyLen)
+			for k := range announced {
+				announced[k] = npub[k%32]
+			}
+		}
+		if ef.Pos == i && ef.Alg >= 0 {
+			alg = pb.PublicKey_Algorithm(ef.Alg)
+			algBytes = []byte{byte(ef.Alg), byte(ef.Alg >> 8), byte(ef.Alg >> 16), byte(ef.Alg >> 24)}
+		}
+		msg := append(append(append([]byte{}, blk...), algBytes...), announced...)
+		sb := &pb.SignedBlock{Block: blk, NextKey: &pb.PublicKey{Algorithm: &alg, Key: announced}, Signature: ed25519.Sign(cur, msg)}
 		if i == 0 {
 			c.Authority = sb
 		} else {
@@ -187,7 +212,8 @@ func signEnvelope(rng *RNG, blocks [][]byte, sealed bool, secretLen int) ([]byte
 	}
 	switch {
 	case sealed:
-		msg := append(append(append(append([]byte{}, last.Block...), 0, 0, 0, 0), last.NextKey.Key...), last.Signature...)
+		alg := uint32(last.NextKey.Algorithm.Number())
+		msg := append(append(append(append([]byte{}, last.Block...), byte(alg), byte(alg>>8), byte(alg>>16), byte(alg>>24)), last.NextKey.Key...), last.Signature...)
 		c.Proof = &pb.Proof{Content: &pb.Proof_FinalSignature{FinalSignature: ed25519.Sign(cur, msg)}}
 	case secretLen >= 0:
 		c.Proof = &pb.Proof{Content: &pb.Proof_NextSecret{NextSecret: rng.Bytes(secretLen)}}
@@ -520,7 +546,37 @@ func advBlockFocused(rng *RNG) ([]byte, string) {
 
 func genAdversarial(rng *RNG, n int) []advToken {
 	var out []advToken
+	plainBlock := func(k int) []byte {
+		b, _ := proto.Marshal(&pb.Block{Version: proto.Uint32(3), Symbols: []string{fmt.Sprintf("zz%d", k)}, FactsV2: []*pb.FactV2{{Predicate: &pb.PredicateV2{Name: proto.Uint64(uint64(1024 + k)), Terms: []*pb.TermV2{{Content: &pb.TermV2_Integer{Integer: int64(k)}}}}}}})
+		return b
+	}
 	for i := 0; i < n; i++ {
+		if i%8 == 3 {
+			// single-fault ENVELOPES: valid content, and one announced key of a wrong size or one odd algorithm
+			// number, SIGNED OVER by the attacker (who owns the chain), in every position and with both kinds of
+			// proof: the stages after the signature check are reached with that value in place
+			nb := 1 + rng.Intn(3)
+			var blocks [][]byte
+			for j := 0; j < nb; j++ {
+				blocks = append(blocks, plainBlock(j))
+			}
+			ef := envFault{Pos: nb - 1, KeyLen: -1, Alg: -1}
+			if rng.Chance(35) {
+				ef.Pos = rng.Intn(nb)
+			}
+			what := ""
+			if rng.Chance(80) {
+				ef.KeyLen = []int{0, 1, 16, 31, 33, 64}[rng.Intn(6)]
+				what = fmt.Sprintf("announced-key-len-%d", ef.KeyLen)
+			} else {
+				ef.Alg = []int32{1, 2, 255, 1 << 20}[rng.Intn(4)]
+				what = fmt.Sprintf("algorithm-%d", ef.Alg)
+			}
+			sealed := rng.Chance(50)
+			bs, root := signEnvelopeFault(rng, blocks, sealed, -1, ef)
+			out = append(out, advToken{fmt.Sprintf("adversarial-envelope-fault:%s:pos%d/%d:sealed=%v", what, ef.Pos, nb, sealed), bs, root})
+			continue
+		}
 		if i%2 == 1 {
 			// single-fault tokens: the focused block as authority or as a later block
 			fb, fault := advBlockFocused(rng)
